@@ -47,6 +47,18 @@ class Evaluator:
             return v
         return v
 
+    def as_ptr(self, v):
+        """a string literal value used as a pointer: its characters become memory of a fresh base"""
+        if isinstance(v, tuple) and v and v[0] == "str" and isinstance(v[1], str):
+            base = "L%d" % (abs(hash(v[1])) % 100000)
+            if base + "[0]" not in self.env:
+                for i_, ch in enumerate(v[1]):
+                    o = ord(ch)
+                    self.env["%s[%d]" % (base, i_)] = o - 256 if o > 127 else o
+                self.env["%s[%d]" % (base, len(v[1]))] = 0
+            return ("ptr", base, 0)
+        return v
+
     def lkey(self, n):
         """key of an lvalue expression: subscripts are evaluated; in heap mode `p->f` is keyed by the value of p"""
         f = self.f
@@ -58,9 +70,9 @@ class Evaluator:
             bs = f.strip(bn, casts=True)
             if bs is not None and bs["k"] in ("CallExpr", "CXXMemberCallExpr"):
                 # the base is a pointer value returned by a call (getBuffer()[i])
-                pv = self.ev(bn)
+                pv = self.as_ptr(self.ev(bn))
                 idx = self.ev(f.node(n["idx"]))
-                if isinstance(pv, tuple):
+                if isinstance(pv, tuple) and pv[0] == "ptr":
                     return "%s[%d]" % (pv[1], pv[2] + idx)
                 raise Unknown("subscript of %s" % render(f, bn))
             try:
@@ -71,18 +83,19 @@ class Evaluator:
             if getattr(self, "on_subscript", None):
                 self.on_subscript(base, idx, n)
             if base in self.env and isinstance(self.env[base], tuple):
-                tp = self.env[base]
-                return "%s[%d]" % (tp[1], tp[2] + idx)
+                tp = self.as_ptr(self.env[base])
+                if tp[0] == "ptr":
+                    return "%s[%d]" % (tp[1], tp[2] + idx)
             if getattr(self, "heap_mode", False) and base in self.env and isinstance(self.env[base], int) and not base.endswith("]"):
                 # pointer variable used as an array: key by the pointer's value
                 return "@%d[%d]" % (self.env[base], idx)
             return "%s[%d]" % (base, idx)
         if n["k"] == "UnaryOperator" and n.get("op") == "*":
             try:
-                pv = self.ev(n["c"][0])
+                pv = self.as_ptr(self.ev(n["c"][0]))
             except Unknown:
                 pv = None
-            if isinstance(pv, tuple):
+            if isinstance(pv, tuple) and pv[0] == "ptr":
                 return "%s[%d]" % (pv[1], pv[2])
             return "*" + render(f, n["c"][0])
         if n["k"] == "MemberExpr" and n.get("base") is not None:
@@ -188,9 +201,11 @@ class Evaluator:
                 key = self.lkey(n["c"][0])
                 if key not in self.env:
                     raise Unknown(key)
-                old = self.env[key]
-                if isinstance(old, tuple):
+                old = self.as_ptr(self.env[key])
+                if isinstance(old, tuple) and old[0] == "ptr":
                     new = (old[0], old[1], old[2] + (1 if op == "++" else -1))
+                elif isinstance(old, tuple):
+                    raise Unknown("%s of %s" % (op, old[0]))
                 else:
                     new = self.wrap(old + (1 if op == "++" else -1), n.get("ct"))
                 self.env[key] = new
@@ -299,7 +314,8 @@ class Evaluator:
                 self.trace.append((nm, args, n))
                 self.argkeys = getattr(self, "argkeys", [])
                 self.argkeys.append((nm, keys))
-                r = self.calls[nm](*args)
+                hook = self.calls[nm]
+                r = hook(self, *args) if getattr(hook, "wants_ev", False) else hook(*args)
                 if r is None:
                     raise Unknown(nm)
                 return r
@@ -354,6 +370,16 @@ class Evaluator:
                 if getattr(sub, "threw", None) is not None:
                     self.threw = sub.threw
                     raise Thrown(nm)
+                # by-reference parameters: what the callee left in them is the caller's object afterwards
+                for q, a in zip(g.params, f.args(n)):
+                    if q["ct"].rstrip().endswith("&") and not q["ct"].startswith("const ") and q["name"] in sub.env:
+                        try:
+                            ak = self.lkey(a)
+                        except Unknown:
+                            continue
+                        if sub.env[q["name"]] != senv.get(q["name"]):
+                            self.env[ak] = sub.env[q["name"]]
+                            self.stores.append((ak, sub.env[q["name"]]))
                 for sk, sv in sub.stores:
                     rk = sk.split(".")[0].split("[")[0]
                     if prefix is not None and rk in fields:
@@ -421,6 +447,8 @@ class Evaluator:
         raise Unknown(k)
 
     def _bin(self, op, a, b, ct):
+        if op in ("+", "-"):
+            a, b = self.as_ptr(a), self.as_ptr(b)
         if isinstance(a, tuple) or isinstance(b, tuple):
             # symbolic element pointers ("ptr", base key, index); string literals ("str", text) only compare with NULL
             if (isinstance(a, tuple) and a[0] != "ptr") or (isinstance(b, tuple) and b[0] != "ptr"):
